@@ -197,6 +197,17 @@ let run_op (op : string) (r : rd) : unit =
                    (match Eval.read_full fs root com n with
                     | None -> put "outside"
                     | Some x -> put_res (fun (s, c) -> put_sdict s; sp (); put_int c) x)
+  | "parse_model" -> let fs = get_fs r in let src = get_str r in let inc = get_bool r in let ap = get_bool r in
+                     let ord = get_bool r in let com = get_bool r in let scope = get_list r get_scalar in
+                     let out = get_opt r get_str in let n = get_int r in
+                     (match Parse.parse_model fs src inc ap ord com scope out n with
+                      | None -> put "outside"
+                      | Some x -> put_res (fun ((t, txt), c) -> put_str t; sp (); put_str txt; sp (); put_int c) x)
+  | "read_opts" -> let fs = get_fs r in let root = get_str r in let inc = get_bool r in let ord = get_bool r in
+                   let com = get_bool r in let scope = get_list r get_scalar in let n = get_int r in
+                   (match Parse.read_opts fs root inc ord com scope n with
+                    | None -> put "outside"
+                    | Some x -> put_res (fun (s, c) -> put_sdict s; sp (); put_int c) x)
   | "pyeval" -> (match Eval.pyeval (get_str r) with
                  | Eval.EvInt z -> put "int "; put_int z
                  | Eval.EvSyntax -> put "syntax"
